@@ -186,7 +186,7 @@ decreasing_by all_goals simp_wf <;> first | (apply Prod.Lex.right; omega) | (app
 def zeroOf (env : Env) (ty : Ty) : Val := zeroVal env (env.length + 1) ty
 
 /-- `ResetDefault()`: nested struct members are reset recursively; members with an explicit default
-    are assigned it; every other member keeps its value -/
+    are assigned it; every other member is assigned its Go zero value -/
 def resetDefault (env : Env) : Nat → List Field → List Val → List Val
   | 0, _, vs => vs
   | _, [], _ => []
@@ -200,7 +200,12 @@ def resetDefault (env : Env) : Nat → List Field → List Val → List Val
       | _, _ => v
     let v2 := match f.dflt with
       | some d => d
-      | none => v1
+      | none =>
+        -- no explicit default: a nested struct has been reset by its own ResetDefault, every
+        -- other member goes back to its Go zero value (fix "ResetDefault resets every member")
+        match f.ty with
+        | .struct _ => v1
+        | t => zeroOf env t
     v2 :: resetDefault env (fuel+1) fs vs
 termination_by fuel fs _ => (fuel, fs.length)
 
@@ -295,8 +300,10 @@ def decVar (env : Env) : Nat → Nat → Bool → Ty → Val → RM Val
           match readLen r1 with
           | (.error er, r') => (.error er, r')
           | (.ok len, r2) =>
-            if len < 0 then (.error (.panic "makeslice"), r2)
-            else decElems env fuel e len.toNat [] r2
+            -- `err = readBuf.CheckLength(length)` before `make([]T, length)`
+            match checkLength len r2 with
+            | (.error er, r') => (.error er, r')
+            | (.ok (), r3) => decElems env fuel e len.toNat [] r3
         else if tyCur = tySimpleList then
           if e = .i8 ∨ e = .u8 then
             -- genReadSimpleList
@@ -327,7 +334,9 @@ def decVar (env : Env) : Nat → Nat → Bool → Ty → Val → RM Val
             let oldVs := match old with
               | .list vs => vs
               | _ => []
-            decArr env fuel e n 0 len oldVs r2
+            -- `if length > N { err = fmt.Errorf("array of N elements, but got …") }`
+            if len > (n : Int) then (.error .mismatch, r2)
+            else decArr env fuel e n 0 len oldVs r2
         else (.error .mismatch, r1)
     | .map k v =>
       -- genReadMap
@@ -338,7 +347,11 @@ def decVar (env : Env) : Nat → Nat → Bool → Ty → Val → RM Val
         else
           match readLen r1 with
           | (.error er, r') => (.error er, r')
-          | (.ok len, r2) => decPairs env fuel k v len [] r2
+          | (.ok len, r2) =>
+            -- `err = readBuf.CheckLength(length)` before the map is filled
+            match checkLength len r2 with
+            | (.error er, r') => (.error er, r')
+            | (.ok (), r3) => decPairs env fuel k v len [] r3
     | .struct name =>
       -- genReadStruct → ReadBlock
       match env.find name, old with
